@@ -18,6 +18,11 @@
 (*   drop_cs    hook POOL_LOCK_HELD: mutex held, `push` not executed yet   *)
 (*   drop_post  hook POOL_PUT_AFTER: arena pushed, mutex released          *)
 (*                                                                         *)
+(* Instead of dropping the guard a thread may pass it to mem::forget (the   *)
+(* documented way to keep an arena for ever, see the SAFETY comment of      *)
+(* `Deref for BumpPoolGuard`): the arena is never returned, never reset and *)
+(* never released, and its guard counts as live for ever (Forget).          *)
+(*                                                                         *)
 (* One action per transition, so a TLC behaviour is a schedule the harness *)
 (* can force step by step, and one logged event per action, so a recorded  *)
 (* execution can be validated action by action (PoolTrace.tla).            *)
@@ -58,7 +63,8 @@ CONSTANTS Threads,          \* non-empty finite set of positive naturals
           MaxChunks,        \* bound of the abstract chunk count of one arena
           MaxPoolOps,       \* number of PoolReset / PoolResetToStart steps before PoolDrop
           CreateUnderLock,  \* see above
-          MayFail           \* TRUE: creating an arena may fail (try_get* returns Err)
+          MayFail,          \* TRUE: creating an arena may fail (try_get* returns Err)
+          MayForget         \* TRUE: a guard may be leaked with mem::forget instead of being dropped
 
 VARIABLES pc,       \* [Threads -> program counter]
           mutex,    \* owner of the pool mutex, or NoThread
@@ -75,9 +81,10 @@ VARIABLES pc,       \* [Threads -> program counter]
           peak,     \* history: maximum number of simultaneous owners
           speak,    \* history: maximum number of threads strictly between `get returned` and `drop called`
           written,  \* history: <<arena, tag>> of every block allocated since the arena's last reset
-          everCreated \* history: number of arenas ever created (survives PoolDrop)
+          everCreated, \* history: number of arenas ever created (survives PoolDrop)
+          leaked    \* arenas whose guard was passed to mem::forget: never returned, never released, valid for ever
 
-vars == <<pc, mutex, idle, used, has, fresh, blocks, chunks, round, phase, alive, nseq, peak, speak, written, everCreated>>
+vars == <<pc, mutex, idle, used, has, fresh, blocks, chunks, round, phase, alive, nseq, peak, speak, written, everCreated, leaked>>
 
 PCs == {"idle", "get_want", "get_cs", "get_create", "get_post", "holding", "used", "drop_want", "drop_cs", "drop_post"}
 
@@ -106,25 +113,26 @@ Init ==
     /\ speak = 0
     /\ written = {}
     /\ everCreated = 0
+    /\ leaked = {}
 
 \* every action moves exactly one thread; the two history maxima are maintained here
 Goto(t, l, h) ==
     /\ pc' = [pc EXCEPT ![t] = l]
-    /\ peak' = Max(peak, Cardinality(Owners(h)))
+    /\ peak' = Max(peak, Cardinality(Owners(h)) + Cardinality(leaked))   \* a forgotten guard stays live for ever
     /\ speak' = Max(speak, Cardinality(StrictLive([pc EXCEPT ![t] = l])))
 
 (*************************** BumpPool::get* ********************************)
 GetCall(t) ==                                  \* the thread calls get / try_get / get_with_size / ...
     /\ alive /\ pc[t] = "idle" /\ round[t] < MaxRounds
     /\ Goto(t, "get_want", has)
-    /\ UNCHANGED <<mutex, idle, used, has, fresh, blocks, chunks, round, phase, alive, nseq, written, everCreated>>
+    /\ UNCHANGED <<mutex, idle, used, has, fresh, blocks, chunks, round, phase, alive, nseq, written, everCreated, leaked>>
 
 GetLock(t) ==                                  \* self.bumps.lock() succeeds
     /\ pc[t] = "get_want" /\ mutex = NoThread
     /\ mutex' = t
     /\ nseq' = nseq + 1
     /\ Goto(t, "get_cs", has)
-    /\ UNCHANGED <<idle, used, has, fresh, blocks, chunks, round, phase, alive, written, everCreated>>
+    /\ UNCHANGED <<idle, used, has, fresh, blocks, chunks, round, phase, alive, written, everCreated, leaked>>
 
 GetPop(t) ==                                   \* pop() = Some(bump); the MutexGuard temporary is dropped
     /\ pc[t] = "get_cs" /\ mutex = t /\ idle # <<>>
@@ -134,7 +142,7 @@ GetPop(t) ==                                   \* pop() = Some(bump); the MutexG
     /\ idle' = SubSeq(idle, 1, Len(idle) - 1)
     /\ fresh' = [fresh EXCEPT ![t] = FALSE]
     /\ mutex' = NoThread
-    /\ UNCHANGED <<used, blocks, chunks, round, phase, alive, nseq, written, everCreated>>
+    /\ UNCHANGED <<used, blocks, chunks, round, phase, alive, nseq, written, everCreated, leaked>>
 
 GetCreateBegin(t, a) ==                        \* pop() = None: self.allocator.clone() for arena `a`
     /\ pc[t] = "get_cs" /\ mutex = t /\ idle = <<>>
@@ -143,7 +151,7 @@ GetCreateBegin(t, a) ==                        \* pop() = None: self.allocator.c
        /\ has' = h
        /\ Goto(t, "get_create", h)
     /\ mutex' = IF CreateUnderLock THEN mutex ELSE NoThread
-    /\ UNCHANGED <<idle, used, fresh, blocks, chunks, round, phase, alive, nseq, written, everCreated>>
+    /\ UNCHANGED <<idle, used, fresh, blocks, chunks, round, phase, alive, nseq, written, everCreated, leaked>>
 
 GetCreateEnd(t) ==                             \* Bump::new_in(..) returned: first chunk allocated
     /\ pc[t] = "get_create"
@@ -154,7 +162,7 @@ GetCreateEnd(t) ==                             \* Bump::new_in(..) returned: fir
     /\ mutex' = IF CreateUnderLock THEN NoThread ELSE mutex
     /\ everCreated' = everCreated + 1
     /\ Goto(t, "get_post", has)
-    /\ UNCHANGED <<idle, has, round, phase, alive, nseq, written>>
+    /\ UNCHANGED <<idle, has, round, phase, alive, nseq, written, leaked>>
 
 GetCreateFail(t) ==                            \* Bump::try_new_in(..)? returned Err: try_get* returns Err, no guard
     /\ MayFail /\ pc[t] = "get_create"
@@ -163,12 +171,12 @@ GetCreateFail(t) ==                            \* Bump::try_new_in(..)? returned
        /\ Goto(t, "idle", h)
     /\ mutex' = IF CreateUnderLock THEN NoThread ELSE mutex
     /\ round' = [round EXCEPT ![t] = @ + 1]
-    /\ UNCHANGED <<idle, used, fresh, blocks, chunks, phase, alive, nseq, written, everCreated>>
+    /\ UNCHANGED <<idle, used, fresh, blocks, chunks, phase, alive, nseq, written, everCreated, leaked>>
 
 GetReturn(t) ==                                \* the BumpPoolGuard is constructed and returned
     /\ pc[t] = "get_post"
     /\ Goto(t, "holding", has)
-    /\ UNCHANGED <<mutex, idle, used, has, fresh, blocks, chunks, round, phase, alive, nseq, written, everCreated>>
+    /\ UNCHANGED <<mutex, idle, used, has, fresh, blocks, chunks, round, phase, alive, nseq, written, everCreated, leaked>>
 
 (************************** through the guard ******************************)
 Use(t, grow) ==                                \* allocate + write blocks tagged <<t, phase, round>>; the arena may need a new chunk
@@ -179,20 +187,20 @@ Use(t, grow) ==                                \* allocate + write blocks tagged
        /\ chunks' = [chunks EXCEPT ![a] = @ + grow]
        /\ written' = written \cup {<<a, tag>>}
     /\ Goto(t, "used", has)
-    /\ UNCHANGED <<mutex, idle, used, has, fresh, round, phase, alive, nseq, everCreated>>
+    /\ UNCHANGED <<mutex, idle, used, has, fresh, round, phase, alive, nseq, everCreated, leaked>>
 
 (************************ BumpPoolGuard::drop ******************************)
 DropCall(t) ==                                 \* ManuallyDrop::take; about to lock
     /\ pc[t] = "used"
     /\ Goto(t, "drop_want", has)
-    /\ UNCHANGED <<mutex, idle, used, has, fresh, blocks, chunks, round, phase, alive, nseq, written, everCreated>>
+    /\ UNCHANGED <<mutex, idle, used, has, fresh, blocks, chunks, round, phase, alive, nseq, written, everCreated, leaked>>
 
 DropLock(t) ==
     /\ pc[t] = "drop_want" /\ mutex = NoThread
     /\ mutex' = t
     /\ nseq' = nseq + 1
     /\ Goto(t, "drop_cs", has)
-    /\ UNCHANGED <<idle, used, has, fresh, blocks, chunks, round, phase, alive, written, everCreated>>
+    /\ UNCHANGED <<idle, used, has, fresh, blocks, chunks, round, phase, alive, written, everCreated, leaked>>
 
 DropPush(t) ==                                 \* push(bump); the MutexGuard temporary is dropped
     /\ pc[t] = "drop_cs" /\ mutex = t
@@ -201,13 +209,22 @@ DropPush(t) ==                                 \* push(bump); the MutexGuard tem
        /\ has' = h
        /\ Goto(t, "drop_post", h)
     /\ mutex' = NoThread
-    /\ UNCHANGED <<used, fresh, blocks, chunks, round, phase, alive, nseq, written, everCreated>>
+    /\ UNCHANGED <<used, fresh, blocks, chunks, round, phase, alive, nseq, written, everCreated, leaked>>
 
 DropReturn(t) ==
     /\ pc[t] = "drop_post"
     /\ round' = [round EXCEPT ![t] = @ + 1]
     /\ Goto(t, "idle", has)
-    /\ UNCHANGED <<mutex, idle, used, has, fresh, blocks, chunks, phase, alive, nseq, written, everCreated>>
+    /\ UNCHANGED <<mutex, idle, used, has, fresh, blocks, chunks, phase, alive, nseq, written, everCreated, leaked>>
+
+Forget(t) ==                                   \* mem::forget(guard): the arena never comes back and is never released
+    /\ MayForget /\ pc[t] = "used"
+    /\ leaked' = leaked \cup {has[t]}
+    /\ has' = [has EXCEPT ![t] = NoArena]
+    /\ pc' = [pc EXCEPT ![t] = "idle"]
+    /\ round' = [round EXCEPT ![t] = @ + 1]
+    /\ speak' = speak /\ peak' = peak           \* the owner count does not change: the guard is live for ever
+    /\ UNCHANGED <<mutex, idle, used, fresh, blocks, chunks, phase, alive, nseq, written, everCreated>>
 
 (********** pool-wide operations: need `&mut self`, i.e. no guard and no call in progress **********)
 Quiescent == \A t \in Threads : pc[t] = "idle"
@@ -221,7 +238,7 @@ PoolReset ==                                   \* for bump in self.bumps() { bum
     /\ written' = {w \in written : ~InIdle(w[1])}
     /\ phase' = phase + 1
     /\ round' = [t \in Threads |-> 0]
-    /\ UNCHANGED <<pc, mutex, idle, used, has, fresh, alive, nseq, peak, speak, everCreated>>
+    /\ UNCHANGED <<pc, mutex, idle, used, has, fresh, alive, nseq, peak, speak, everCreated, leaked>>
 
 PoolResetToStart ==                            \* bump.reset_to_start(): keep every chunk, forget all blocks
     /\ alive /\ Quiescent /\ phase < MaxPoolOps
@@ -229,7 +246,7 @@ PoolResetToStart ==                            \* bump.reset_to_start(): keep ev
     /\ written' = {w \in written : ~InIdle(w[1])}
     /\ phase' = phase + 1
     /\ round' = [t \in Threads |-> 0]
-    /\ UNCHANGED <<pc, mutex, idle, used, has, fresh, chunks, alive, nseq, peak, speak, everCreated>>
+    /\ UNCHANGED <<pc, mutex, idle, used, has, fresh, chunks, alive, nseq, peak, speak, everCreated, leaked>>
 
 PoolDrop ==                                    \* drop(pool): every idle arena is dropped, i.e. all its chunks are released
     /\ alive /\ Quiescent
@@ -239,13 +256,13 @@ PoolDrop ==                                    \* drop(pool): every idle arena i
     /\ chunks' = [a \in used' |-> chunks[a]]
     /\ written' = {w \in written : ~InIdle(w[1])}
     /\ idle' = <<>>
-    /\ UNCHANGED <<pc, mutex, has, fresh, round, phase, nseq, peak, speak, everCreated>>
+    /\ UNCHANGED <<pc, mutex, has, fresh, round, phase, nseq, peak, speak, everCreated, leaked>>
 
 -----------------------------------------------------------------------------
 (* Labelled steps: <<thread, label, argument>> names one step; thread 0 is the owner of the pool.  Used by the     *)
 (* schedule emission (MC_PoolSched.tla), which records the labels in a history variable.                           *)
 ThreadLabels == {"GetCall", "GetLock", "GetPop", "GetCreateBegin", "GetCreateEnd", "GetCreateFail", "GetReturn",
-                 "Use", "DropCall", "DropLock", "DropPush", "DropReturn"}
+                 "Use", "DropCall", "DropLock", "DropPush", "DropReturn", "Forget"}
 MainLabels   == {"PoolReset", "PoolResetToStart", "PoolDrop"}
 
 ThreadStep(t, l, x) ==
@@ -261,6 +278,7 @@ ThreadStep(t, l, x) ==
     \/ l = "DropLock"       /\ x = 0 /\ DropLock(t)
     \/ l = "DropPush"       /\ x = 0 /\ DropPush(t)
     \/ l = "DropReturn"     /\ x = 0 /\ DropReturn(t)
+    \/ l = "Forget"         /\ x = 0 /\ Forget(t)
 
 MainStep(l) ==
     \/ l = "PoolReset"        /\ PoolReset
@@ -273,7 +291,7 @@ Args(l) == IF l = "Use" THEN {0, 1} ELSE IF l = "GetCreateBegin" THEN {NewArena}
 ThreadNext(t) ==
     \/ GetCall(t) \/ GetLock(t) \/ GetPop(t) \/ GetCreateBegin(t, NewArena) \/ GetCreateEnd(t) \/ GetCreateFail(t)
     \/ GetReturn(t) \/ (\E g \in {0, 1} : Use(t, g))
-    \/ DropCall(t) \/ DropLock(t) \/ DropPush(t) \/ DropReturn(t)
+    \/ DropCall(t) \/ DropLock(t) \/ DropPush(t) \/ DropReturn(t) \/ Forget(t)
 
 Next ==
     \/ \E t \in Threads : GetCall(t)
@@ -288,6 +306,7 @@ Next ==
     \/ \E t \in Threads : DropLock(t)
     \/ \E t \in Threads : DropPush(t)
     \/ \E t \in Threads : DropReturn(t)
+    \/ \E t \in Threads : Forget(t)
     \/ PoolReset
     \/ PoolResetToStart
     \/ PoolDrop
@@ -308,7 +327,8 @@ TypeOK ==
     /\ round \in [Threads -> 0..MaxRounds]
     /\ phase \in 0..MaxPoolOps
     /\ alive \in BOOLEAN
-    /\ nseq \in Nat /\ peak \in 0..Cardinality(Threads) /\ speak \in 0..Cardinality(Threads)
+    /\ leaked \subseteq used
+    /\ nseq \in Nat /\ peak \in Nat /\ speak \in 0..Cardinality(Threads)
 
 \* the mutex is held exactly by the thread inside a critical section
 LockPCs == {"get_cs", "drop_cs"} \cup (IF CreateUnderLock THEN {"get_create"} ELSE {})
@@ -321,11 +341,11 @@ OwnerPCs == {"get_create", "get_post", "holding", "used", "drop_want", "drop_cs"
 OwnerOK  == \A t \in Threads : (has[t] # NoArena) <=> (pc[t] \in OwnerPCs)
 
 \* C19 clause 1: no arena under two live guards
-Exclusive     == ExclusiveC(has)
+Exclusive     == ExclusiveC(has) /\ \A t \in Threads : has[t] \notin leaked
 \* idle /\ held = {}
-IdleDisjoint  == IdleDisjointC(has, idle)
+IdleDisjoint  == IdleDisjointC(has, idle) /\ Range(idle) \cap leaked = {}
 \* no arena is ever lost or duplicated while the pool exists: created or being created = idle or in hands
-Conservation  == alive => (used \subseteq Range(idle) \cup InHands /\ Range(idle) \subseteq used)
+Conservation  == alive => (used \subseteq Range(idle) \cup InHands \cup leaked /\ Range(idle) \subseteq used)
 \* C19 clause 2: reuse before create -- arenas created or being created never outnumber the peak of simultaneous owners
 ReuseOK       == ReuseC(everCreated + Cardinality(InHands \ used), peak)
 \* ... and in fact they are equal: the pool never holds back an arena either
@@ -340,9 +360,12 @@ BlocksOnlyForgottenByPoolOps ==
     [][(\E a \in used : a \in DOMAIN blocks' /\ ~(blocks[a] \subseteq blocks'[a])) => phase' # phase]_vars
 \* C19 clause 4 (model side): a pool-wide reset leaves every arena with one chunk / all chunks and no blocks; drop releases all
 ResetRewindsAll ==
-    [][(phase' # phase) => \A a \in used : blocks'[a] = {} /\ (chunks'[a] = 1 \/ chunks'[a] = chunks[a])]_vars
+    [][(phase' # phase) => \A a \in used \ leaked : blocks'[a] = {} /\ (chunks'[a] = 1 \/ chunks'[a] = chunks[a])]_vars
 DropReleasesAll ==
-    [][(alive /\ ~alive') => used' = {} /\ idle' = <<>>]_vars
+    [][(alive /\ ~alive') => used' = leaked /\ idle' = <<>>]_vars
+\* what was allocated through a forgotten guard stays valid and unchanged for ever, also across pool reset and drop
+LeakedStayValid ==
+    [][\A a \in leaked : a \in used' /\ blocks[a] \subseteq blocks'[a] /\ chunks'[a] = chunks[a]]_vars
 
 \* the deliberately wrong reading of "peak number of live guards" (see the header): violated by the model
 NaiveReuse    == Quiescent => everCreated <= speak
